@@ -224,6 +224,18 @@ public:
 
   std::string typeName() const;
 
+  /**
+   * Convert a decimal to integer, truncating toward zero. It throws the error
+   * out-of-range when the value cannot be represented (NaN, infinite, beyond
+   * the 64 bits range), where a plain cast would be undefined.
+   */
+  static Integer toInteger(Numeric d)
+  {
+    if (!(d >= -9223372036854775808.0 && d < 9223372036854775808.0))
+      throw RuntimeError(EXC_RT_OUT_OF_RANGE);
+    return Integer(d);
+  }
+
   /* readables */
 
   static std::string readableBoolean(Bool& b);
